@@ -373,7 +373,10 @@ def shadowIterL2 (st : St) (cmd : List String) (got : String) : Std.HashMap Stri
       else if kind == "many" then (st.l2it.insert i (.many (ManyIt.create r)), none)
       else (st.l2it.erase i, none)
     | none => (st.l2it.erase i, none)
-  | ["l2reinit", i, _] =>
+  | ["l2it", "unset", i, _, _, _] =>
+    -- an unset iterator takes over the name (its L2 state lives in `St.l2uit`, Driver/Iter2.lean)
+    if got.startsWith "skip" then (st.l2it, none) else (st.l2it.erase i, none)
+  | ["l2reinit", i, _] | ["l2reinit", i, _, _, _] =>
     if got.startsWith "skip" then (st.l2it, none) else
     match st.l2it[i]?, okRep with
     | some (.fwd it), some r => (st.l2it.insert i (.fwd (it.reinit r)), none)
